@@ -43,6 +43,23 @@ Theorem C09_max_section_file_offset_no_panic :
   forall secs mx, forallb section_u32 secs = true -> max_section_file_offset secs mx <> Panic.
 Proof. exact max_section_file_offset_no_panic. Qed.
 
+(* module/pe/version_info.rs entry walks: with the repaired loop (`Some(length) if length > 0`) the walk over
+   attacker-declared lengths ends within end - offset + 1 iterations; the loop of the pinned tree does not (finding
+   C09-version-info-zero-length, repaired in /repo), and the repair changes nothing when all lengths are positive *)
+Theorem C09_version_info_walk_terminates :
+  forall read fuel offset end_, (N.to_nat (end_ - offset) < fuel)%nat -> walk_fixed read fuel offset end_ <> None.
+Proof. exact walk_fixed_terminates. Qed.
+
+Theorem C09_version_info_walk_pinned_refuted :
+  forall fuel, walk_pinned (fun _ => Some 0) fuel 0 1 = None.
+Proof. exact walk_pinned_refuted. Qed.
+
+Theorem C09_version_info_walk_fix_conservative :
+  forall read fuel offset end_,
+    (forall o len, read o = Some len -> 0 < len) ->
+    walk_fixed read fuel offset end_ = walk_pinned read fuel offset end_.
+Proof. exact walk_fixed_eq_pinned. Qed.
+
 (* non-vacuity: a section table on which the unchecked subtraction is actually exercised, and the hypothesis of the
    last theorem is satisfiable *)
 Example C09_entrypoint_example :
@@ -67,3 +84,6 @@ Print Assumptions C09_elf_entry_no_panic.
 Print Assumptions C09_rva_to_offset_no_panic.
 Print Assumptions C09_rva_to_offset_in_bounds.
 Print Assumptions C09_max_section_file_offset_no_panic.
+Print Assumptions C09_version_info_walk_terminates.
+Print Assumptions C09_version_info_walk_pinned_refuted.
+Print Assumptions C09_version_info_walk_fix_conservative.
